@@ -1,3 +1,697 @@
 package main
 
-func recordRun() {}
+// C42: record-level man-in-the-middle between a TLS peer and the real bfe_tls connection.
+//
+//   sender  <--net.Pipe-->  MITM  <--net.Pipe-->  receiver
+//
+// The handshake is passed through untouched.  Then the sender writes N chunks; the MITM captures
+// the application-data records, rewrites the wire as the TLC-generated case says (flip / drop /
+// duplicate / replay / swap / truncate / inject), feeds it to the receiver and closes the
+// transport.  Observed: the bytes Conn.Read handed out and the final error.
+
+import (
+	"bytes"
+	"crypto/ecdsa"
+	"crypto/elliptic"
+	"crypto/rand"
+	"crypto/rsa"
+	"crypto/tls"
+	"crypto/x509"
+	"crypto/x509/pkix"
+	"encoding/json"
+	"errors"
+	"fmt"
+	"io"
+	"math/big"
+	mrand "math/rand"
+	"net"
+	"os"
+	"strings"
+	"sync"
+	"time"
+
+	"github.com/bfenetworks/bfe/bfe_tls"
+
+	"verifharness/vh"
+)
+
+type wireRec struct {
+	Src  int    `json:"src"`
+	Mod  string `json:"mod"`
+	Inj  string `json:"inj"`
+	Part string `json:"part"`
+}
+
+type recCase struct {
+	ID    int       `json:"id"`
+	Combo string    `json:"combo"` // peer/version/suite/dir, e.g. go/tls12/c02f/c2s
+	N     int       `json:"n"`
+	Wire  []wireRec `json:"wire"`
+	Acts  []map[string]interface{} `json:"acts"`
+	ExpP  struct {
+		Clean   int  `json:"clean"`
+		RealErr bool `json:"realerr"`
+	} `json:"expP"`
+	ExpM struct {
+		Deliver int    `json:"deliver"`
+		Err     string `json:"err"`
+	} `json:"expM"`
+}
+
+type combo struct {
+	peer  string // "go": crypto/tls client, "bfe": bfe_tls.Client
+	vers  uint16
+	suite uint16
+	dir   string // "c2s" (judged at the bfe server) | "s2c"
+}
+
+var versByName = map[string]uint16{"ssl30": 0x0300, "tls10": 0x0301, "tls11": 0x0302, "tls12": 0x0303}
+
+func parseCombo(s string) (combo, error) {
+	f := strings.Split(s, "/")
+	if len(f) != 4 {
+		return combo{}, fmt.Errorf("bad combo %q", s)
+	}
+	v, ok := versByName[f[1]]
+	if !ok {
+		return combo{}, fmt.Errorf("bad version in combo %q", s)
+	}
+	var id uint16
+	if _, err := fmt.Sscanf(f[2], "%x", &id); err != nil {
+		return combo{}, fmt.Errorf("bad suite in combo %q", s)
+	}
+	if f[0] != "go" && f[0] != "bfe" || f[3] != "c2s" && f[3] != "s2c" {
+		return combo{}, fmt.Errorf("bad combo %q", s)
+	}
+	return combo{f[0], v, id, f[3]}, nil
+}
+
+// suite family facts (public knowledge from the RFCs, used only to aim the flips)
+type suiteShape struct {
+	kind  string // aead | cbc | stream
+	block int    // CBC block size
+	tail  int    // tag / MAC length at the end of a non-CBC record
+}
+
+func shapeOf(id uint16) suiteShape {
+	switch id {
+	case 0xc02f, 0xc02b, 0xcca8, 0xcca9:
+		return suiteShape{"aead", 0, 16}
+	case 0x0005, 0xc007, 0xc011:
+		return suiteShape{"stream", 0, 20}
+	case 0x000a, 0xc012:
+		return suiteShape{"cbc", 8, 20}
+	case 0xe019:
+		return suiteShape{"cbc", 16, 32}
+	}
+	return suiteShape{"cbc", 16, 20}
+}
+
+func isECDSA(id uint16) bool {
+	switch id {
+	case 0xc007, 0xc009, 0xc00a, 0xc02b, 0xcca9:
+		return true
+	}
+	return false
+}
+
+// ---------------------------------------------------------------- certificates
+var (
+	certOnce          sync.Once
+	rsaDER, ecDER     []byte
+	rsaKey            *rsa.PrivateKey
+	ecKey             *ecdsa.PrivateKey
+	certErr           error
+)
+
+func makeCerts() {
+	certOnce.Do(func() {
+		tmpl := &x509.Certificate{
+			SerialNumber: big.NewInt(42), Subject: pkix.Name{CommonName: "verif.test"},
+			NotBefore: time.Now().Add(-time.Hour), NotAfter: time.Now().Add(24 * time.Hour),
+			KeyUsage:    x509.KeyUsageDigitalSignature | x509.KeyUsageKeyEncipherment,
+			ExtKeyUsage: []x509.ExtKeyUsage{x509.ExtKeyUsageServerAuth}, DNSNames: []string{"verif.test"},
+			BasicConstraintsValid: true,
+		}
+		rsaKey, certErr = rsa.GenerateKey(rand.Reader, 2048)
+		if certErr != nil {
+			return
+		}
+		rsaDER, certErr = x509.CreateCertificate(rand.Reader, tmpl, tmpl, &rsaKey.PublicKey, rsaKey)
+		if certErr != nil {
+			return
+		}
+		ecKey, certErr = ecdsa.GenerateKey(elliptic.P256(), rand.Reader)
+		if certErr != nil {
+			return
+		}
+		ecDER, certErr = x509.CreateCertificate(rand.Reader, tmpl, tmpl, &ecKey.PublicKey, ecKey)
+	})
+}
+
+type noProtos struct{}
+
+func (noProtos) Get(c *bfe_tls.Conn) []string { return nil }
+
+type fixedRule struct{ r *bfe_tls.Rule }
+
+func (f fixedRule) Get(c *bfe_tls.Conn) *bfe_tls.Rule { return f.r }
+
+func serverConfig(cb combo) *bfe_tls.Config {
+	cert := bfe_tls.Certificate{Certificate: [][]byte{rsaDER}, PrivateKey: rsaKey}
+	if isECDSA(cb.suite) {
+		cert = bfe_tls.Certificate{Certificate: [][]byte{ecDER}, PrivateKey: ecKey}
+	}
+	return &bfe_tls.Config{
+		Certificates:           []bfe_tls.Certificate{cert},
+		CipherSuites:           []uint16{cb.suite},
+		MinVersion:             bfe_tls.VersionSSL30,
+		MaxVersion:             bfe_tls.VersionTLS12,
+		SessionTicketsDisabled: true,
+		ServerRule: fixedRule{&bfe_tls.Rule{NextProtos: noProtos{}, Grade: bfe_tls.GradeC, Chacha20: true}},
+	}
+}
+
+// ---------------------------------------------------------------- the man in the middle
+type rawRecord []byte // header + body exactly as seen on the wire
+
+func readRawRecord(r io.Reader) (rawRecord, error) {
+	hdr := make([]byte, 5)
+	if _, err := io.ReadFull(r, hdr); err != nil {
+		return nil, err
+	}
+	n := int(hdr[3])<<8 | int(hdr[4])
+	rec := make([]byte, 5+n)
+	copy(rec, hdr)
+	if _, err := io.ReadFull(r, rec[5:]); err != nil {
+		return nil, err
+	}
+	return rec, nil
+}
+
+type pump struct {
+	mu       sync.Mutex
+	mode     string // pass | capture | discard
+	hs       []rawRecord // records seen while passing (handshake phase)
+	captured []rawRecord
+	done     chan struct{}
+}
+
+func (p *pump) setMode(m string) { p.mu.Lock(); p.mode = m; p.mu.Unlock() }
+
+func (p *pump) run(src io.Reader, dst io.Writer) {
+	defer close(p.done)
+	for {
+		rec, err := readRawRecord(src)
+		if err != nil {
+			return
+		}
+		p.mu.Lock()
+		m := p.mode
+		switch m {
+		case "pass":
+			p.hs = append(p.hs, rec)
+		case "capture":
+			p.captured = append(p.captured, rec)
+		}
+		p.mu.Unlock()
+		if m == "pass" {
+			if _, err := dst.Write(rec); err != nil {
+				return
+			}
+		}
+	}
+}
+
+type tlsEnd interface {
+	net.Conn
+	Handshake() error
+}
+
+type session struct {
+	cb             combo
+	client, server tlsEnd
+	pipes          []net.Conn
+	c2s, s2c       *pump
+	mB, mA         net.Conn
+}
+
+func (s *session) closeAll() {
+	for _, p := range s.pipes {
+		p.Close()
+	}
+}
+
+func connect(cb combo) (*session, error) {
+	makeCerts()
+	if certErr != nil {
+		return nil, certErr
+	}
+	cA, mA := net.Pipe()
+	mB, sB := net.Pipe()
+	s := &session{cb: cb, pipes: []net.Conn{cA, mA, mB, sB}, mA: mA, mB: mB,
+		c2s: &pump{mode: "pass", done: make(chan struct{})},
+		s2c: &pump{mode: "pass", done: make(chan struct{})}}
+	s.server = bfe_tls.Server(sB, serverConfig(cb))
+	if cb.peer == "go" {
+		s.client = tls.Client(cA, &tls.Config{InsecureSkipVerify: true, ServerName: "verif.test",
+			MinVersion: cb.vers, MaxVersion: cb.vers, CipherSuites: []uint16{cb.suite},
+			SessionTicketsDisabled: true})
+	} else {
+		s.client = bfe_tls.Client(cA, &bfe_tls.Config{InsecureSkipVerify: true, ServerName: "verif.test",
+			MinVersion: cb.vers, MaxVersion: cb.vers, CipherSuites: []uint16{cb.suite},
+			SessionTicketsDisabled: true})
+	}
+	go s.c2s.run(mA, mB)
+	go s.s2c.run(mB, mA)
+	errs := make(chan error, 2)
+	go func() { errs <- s.server.Handshake() }()
+	go func() { errs <- s.client.Handshake() }()
+	var first error
+	for i := 0; i < 2; i++ {
+		select {
+		case e := <-errs:
+			if e != nil && first == nil {
+				first = e
+				s.closeAll()
+			}
+		case <-time.After(20 * time.Second):
+			s.closeAll()
+			return nil, errors.New("handshake timed out")
+		}
+	}
+	if first != nil {
+		return nil, fmt.Errorf("handshake failed: %v", first)
+	}
+	return s, nil
+}
+
+func negotiated(s *session) (uint16, uint16) {
+	switch c := s.server.(type) {
+	case *bfe_tls.Conn:
+		st := c.ConnectionState()
+		return st.Version, st.CipherSuite
+	}
+	return 0, 0
+}
+
+// chunk i of the application stream: position-dependent bytes, so that reordered, duplicated or
+// modified data can never look like a prefix.
+func chunkBytes(i, size int, seed int64) []byte {
+	r := mrand.New(mrand.NewSource(seed*7919 + int64(i)*104729 + 17))
+	b := make([]byte, size)
+	r.Read(b)
+	b[0] = byte(i)
+	return b
+}
+
+func classify(err error) string {
+	if err == nil {
+		return "none"
+	}
+	if err == io.EOF {
+		return "eof"
+	}
+	if err == io.ErrUnexpectedEOF {
+		return "ueof"
+	}
+	m := strings.ToLower(err.Error())
+	switch {
+	case strings.Contains(m, "bad record mac"):
+		return "mac"
+	case strings.Contains(m, "protocol version") || strings.Contains(m, "record with version"):
+		return "version"
+	case strings.Contains(m, "record overflow") || strings.Contains(m, "oversized record"):
+		return "overflow"
+	case strings.Contains(m, "unexpected message"):
+		return "unexpected"
+	case strings.Contains(m, "no renegotiation"):
+		return "noreneg"
+	case strings.Contains(m, "unexpected eof"):
+		return "ueof"
+	case strings.Contains(m, "closed pipe") || strings.Contains(m, "closed network"):
+		return "closed"
+	case m == "eof":
+		return "eof"
+	}
+	return "other"
+}
+
+type runObs struct {
+	Delivered int    `json:"delivered"`          // bytes handed to the application
+	Reads     []int  `json:"reads,omitempty"`    // sizes of the successful reads
+	PrefixOK  bool   `json:"prefix_ok"`          // delivered bytes are a prefix of the sent stream
+	Err       string `json:"err"`                // final error text
+	Class     string `json:"class"`              // its class
+	Records   int    `json:"records"`            // application records captured
+	Version   string `json:"version,omitempty"`
+	Suite     string `json:"suite,omitempty"`
+}
+
+// runWire performs one behaviour.  wire == nil means the identity (all captured records forwarded).
+func runWire(cb combo, n int, wire []wireRec, rnd *mrand.Rand, seed int64) (obs runObs, sent []byte, recs []rawRecord, err error) {
+	s, err := connect(cb)
+	if err != nil {
+		return obs, nil, nil, err
+	}
+	defer s.closeAll()
+	v, su := negotiated(s)
+	obs.Version, obs.Suite = fmt.Sprintf("%04x", v), fmt.Sprintf("%04x", su)
+	if v != cb.vers || su != cb.suite {
+		return obs, nil, nil, fmt.Errorf("negotiated %04x/%04x, wanted %04x/%04x", v, su, cb.vers, cb.suite)
+	}
+	var sender, receiver tlsEnd
+	var fwd, back *pump
+	var toReceiver net.Conn
+	if cb.dir == "c2s" {
+		sender, receiver, fwd, back, toReceiver = s.client, s.server, s.c2s, s.s2c, s.mB
+	} else {
+		sender, receiver, fwd, back, toReceiver = s.server, s.client, s.s2c, s.c2s, s.mA
+	}
+	fwd.setMode("capture")
+	back.setMode("discard")
+	// the sender writes n chunks (at least n records) and closes its end of the transport
+	sizes := []int{37, 300, 16, 129, 5, 64}
+	for i := 1; i <= n; i++ {
+		c := chunkBytes(i, sizes[(i-1)%len(sizes)], seed)
+		sent = append(sent, c...)
+		if _, werr := sender.Write(c); werr != nil {
+			return obs, nil, nil, fmt.Errorf("sender write failed: %v", werr)
+		}
+	}
+	// closing the sender's transport ends the capture loop once everything has been read
+	if cb.dir == "c2s" {
+		s.pipes[0].Close()
+	} else {
+		s.pipes[3].Close()
+	}
+	select {
+	case <-fwd.done:
+	case <-time.After(10 * time.Second):
+		return obs, nil, nil, errors.New("capture did not finish")
+	}
+	recs = fwd.captured
+	obs.Records = len(recs)
+	if len(recs) < n {
+		return obs, nil, nil, fmt.Errorf("captured %d records for %d writes", len(recs), n)
+	}
+	for _, r := range recs {
+		if r[0] != 23 {
+			return obs, nil, nil, fmt.Errorf("captured a record of type %d", r[0])
+		}
+	}
+	recs = recs[:n]
+	var hsFin rawRecord
+	for _, r := range fwd.hs {
+		if r[0] == 22 {
+			hsFin = r
+		}
+	}
+	stream, berr := buildWire(cb, recs, wire, hsFin, rnd)
+	if berr != nil {
+		return obs, nil, nil, berr
+	}
+	// feed the receiver and close the transport behind the last byte
+	go func() {
+		toReceiver.Write(stream)
+		toReceiver.Close()
+	}()
+	var got []byte
+	buf := make([]byte, 1<<16)
+	var rerr error
+	for rerr == nil {
+		var k int
+		k, rerr = receiver.Read(buf)
+		if k > 0 {
+			got = append(got, buf[:k]...)
+			obs.Reads = append(obs.Reads, k)
+		}
+		if len(obs.Reads) > 4*n+100 {
+			rerr = errors.New("verif: receiver keeps delivering")
+		}
+	}
+	obs.Delivered = len(got)
+	obs.PrefixOK = len(got) <= len(sent) && bytes.Equal(got, sent[:len(got)])
+	obs.Err = rerr.Error()
+	obs.Class = classify(rerr)
+	return obs, sent, recs, nil
+}
+
+// buildWire turns the abstract wire of the case into bytes.
+func buildWire(cb combo, recs []rawRecord, wire []wireRec, hsFin rawRecord, rnd *mrand.Rand) ([]byte, error) {
+	var out []byte
+	if wire == nil {
+		for _, r := range recs {
+			out = append(out, r...)
+		}
+		return out, nil
+	}
+	sh := shapeOf(cb.suite)
+	vmaj, vmin := byte(cb.vers>>8), byte(cb.vers)
+	for _, w := range wire {
+		var r []byte
+		switch {
+		case w.Inj != "none":
+			switch w.Inj {
+			case "garbage":
+				r = append([]byte(nil), recs[0]...)
+				rnd.Read(r[5:])
+			case "plainalert":
+				r = []byte{21, vmaj, vmin, 0, 2, 1, 0}
+			case "empty":
+				r = []byte{23, vmaj, vmin, 0, 0}
+			case "ccs":
+				r = []byte{20, vmaj, vmin, 0, 1, 1}
+			case "hsfinished":
+				if hsFin == nil {
+					return nil, errors.New("no handshake record captured to replay")
+				}
+				r = append([]byte(nil), hsFin...)
+			default:
+				return nil, fmt.Errorf("unknown inject kind %q", w.Inj)
+			}
+		case w.Src >= 1 && w.Src <= len(recs):
+			r = append([]byte(nil), recs[w.Src-1]...)
+		default:
+			return nil, fmt.Errorf("wire refers to record %d", w.Src)
+		}
+		n := len(r) - 5
+		pick := func(opts ...byte) byte { return opts[rnd.Intn(len(opts))] }
+		idx := -1
+		switch w.Mod {
+		case "none":
+		case "type":
+			r[0] ^= pick(0x01, 0x02, 0x03)
+		case "vmaj":
+			r[1] ^= pick(0x01, 0x02)
+		case "vmin":
+			r[2] ^= pick(0x01, 0x02, 0x03)
+		case "lenhi":
+			r[3] ^= 0x01
+		case "lenlo":
+			r[4] ^= pick(0x01, 0x08, 0x10)
+		case "lenover":
+			r[3] |= 0x80
+		case "first":
+			idx = 0
+		case "mid":
+			idx = n / 2
+		case "macstart":
+			if sh.kind == "cbc" {
+				idx = n - sh.block
+			} else {
+				idx = n - sh.tail
+			}
+		case "pad":
+			if sh.kind == "cbc" {
+				idx = n - 1 - sh.block
+			} else {
+				idx = n - 2
+			}
+		case "last":
+			idx = n - 1
+		default:
+			return nil, fmt.Errorf("unknown region %q", w.Mod)
+		}
+		if idx >= 0 {
+			if idx >= n {
+				return nil, fmt.Errorf("region %s outside a %d-byte record body", w.Mod, n)
+			}
+			r[5+idx] ^= pick(0x01, 0x80, 0x10, 0xff)
+		}
+		switch w.Part {
+		case "full":
+		case "header":
+			r = r[:1+rnd.Intn(4)]
+		case "body":
+			r = r[:5+rnd.Intn(n)]
+		default:
+			return nil, fmt.Errorf("unknown part %q", w.Part)
+		}
+		out = append(out, r...)
+	}
+	return out, nil
+}
+
+// calibration: plaintext bytes carried by each of the first n records of a combo (identity run)
+var calib = map[string][]int{}
+
+func calibrate(cb combo, key string, n int, seed int64) ([]int, error) {
+	if c, ok := calib[fmt.Sprintf("%s#%d", key, n)]; ok {
+		return c, nil
+	}
+	rnd := mrand.New(mrand.NewSource(1))
+	obs, sent, _, err := runWire(cb, n, nil, rnd, seed)
+	if err != nil {
+		return nil, err
+	}
+	if !obs.PrefixOK || len(obs.Reads) != n {
+		return nil, fmt.Errorf("untampered stream: %d reads for %d records, prefix_ok=%v, err=%s (delivered %d of %d bytes)",
+			len(obs.Reads), n, obs.PrefixOK, obs.Err, obs.Delivered, len(sent))
+	}
+	if obs.Class != "eof" && obs.Class != "ueof" && obs.Class != "closed" {
+		return nil, fmt.Errorf("untampered stream ended with %q", obs.Err)
+	}
+	calib[fmt.Sprintf("%s#%d", key, n)] = obs.Reads
+	return obs.Reads, nil
+}
+
+// what the mechanism model's error class may look like on the real connections (diagnostic only)
+var mClasses = map[string][]string{
+	"mac":      {"mac", "noreneg", "unexpected"},
+	"lenerr":   {"mac", "ueof", "overflow", "noreneg", "unexpected"},
+	"version":  {"version"},
+	"overflow": {"overflow"},
+	"ueof":     {"ueof"},
+	"eof":      {"eof"},
+}
+
+func recordRun() {
+	seed := vh.Seed()
+	count := 0
+	vh.EachCase(func(line []byte) {
+		var c recCase
+		if err := json.Unmarshal(line, &c); err != nil {
+			fmt.Fprintln(os.Stderr, "bad case:", err)
+			vh.Flush()
+			os.Exit(2)
+		}
+		count++
+		cb, err := parseCombo(c.Combo)
+		if err != nil {
+			vh.Emit(map[string]interface{}{"id": c.ID, "machinery": err.Error()})
+			return
+		}
+		var sizes []int
+		var obs runObs
+		var runErr error
+		ptxt, fin := vh.GuardTimeout(60*time.Second, func() {
+			sizes, runErr = calibrate(cb, c.Combo, c.N, seed)
+			if runErr != nil {
+				return
+			}
+			rnd := mrand.New(mrand.NewSource(seed*1000003 + int64(c.ID)))
+			obs, _, _, runErr = runWire(cb, c.N, c.Wire, rnd, seed)
+		})
+		shape := shapeSig(c)
+		res := vh.Result{ID: c.ID, Obs: obs}
+		switch {
+		case ptxt != "":
+			res.Sig, res.Detail = "panic/"+c.Combo+"/"+shape, ptxt
+		case !fin:
+			res.Sig, res.Detail = "hang/"+c.Combo+"/"+shape, "no result within 60 s"
+		case runErr != nil:
+			vh.Emit(map[string]interface{}{"id": c.ID, "machinery": c.Combo + ": " + runErr.Error()})
+			return
+		default:
+			cum := func(k int) int {
+				t := 0
+				for i := 0; i < k && i < len(sizes); i++ {
+					t += sizes[i]
+				}
+				return t
+			}
+			why := ""
+			switch {
+			case !obs.PrefixOK:
+				why = "not-a-prefix"
+			case obs.Delivered > cum(c.ExpP.Clean):
+				why = "delivered-past-tamper"
+			case obs.Class == "none":
+				why = "no-error"
+			case c.ExpP.RealErr && obs.Class == "eof":
+				why = "tamper-reported-as-eof"
+			}
+			if why != "" {
+				res.Sig = why + "/" + c.Combo + "/" + shape
+				res.Detail = fmt.Sprintf("combo %s wire %s: delivered %d bytes (clean prefix = %d records = %d bytes, record sizes %v), prefix_ok=%v, error %q",
+					c.Combo, wireText(c.Wire), obs.Delivered, c.ExpP.Clean, cum(c.ExpP.Clean), sizes, obs.PrefixOK, obs.Err)
+			} else {
+				okClass := false
+				for _, k := range mClasses[c.ExpM.Err] {
+					okClass = okClass || k == obs.Class
+				}
+				if cb.peer == "go" && cb.dir == "s2c" && c.ExpM.Err == "eof" && obs.Class == "ueof" {
+					okClass = true // crypto/tls as the receiver reports a lost tail as unexpected EOF
+				}
+				if obs.Delivered != cum(c.ExpM.Deliver) || !okClass {
+					res.Drift = fmt.Sprintf("%s wire %s: delivered %d bytes / error class %s, mechanism model says %d bytes / %s",
+						c.Combo, wireText(c.Wire), obs.Delivered, obs.Class, cum(c.ExpM.Deliver), c.ExpM.Err)
+				}
+			}
+		}
+		res.OK = res.Sig == ""
+		if !res.OK {
+			res.Case = c
+		}
+		vh.Emit(res)
+	})
+	vh.Emit(map[string]interface{}{"summary": true, "cases": count})
+}
+
+// canonical shape of the first non-authentic wire element (signature)
+func shapeSig(c recCase) string {
+	for i, w := range c.Wire {
+		if w.Src == i+1 && w.Mod == "none" && w.Inj == "none" && w.Part == "full" {
+			continue
+		}
+		switch {
+		case w.Inj != "none":
+			return "inject:" + w.Inj
+		case w.Part != "full":
+			return "truncate:" + w.Part
+		case w.Mod != "none":
+			return "flip:" + w.Mod
+		case w.Src <= i:
+			return "replayed-record"
+		default:
+			return "skipped-record"
+		}
+	}
+	if len(c.Wire) < c.N {
+		return "tail-loss"
+	}
+	return "untampered"
+}
+
+func wireText(w []wireRec) string {
+	var b strings.Builder
+	for i, r := range w {
+		if i > 0 {
+			b.WriteByte(' ')
+		}
+		switch {
+		case r.Inj != "none":
+			b.WriteString("<" + r.Inj + ">")
+		default:
+			fmt.Fprintf(&b, "r%d", r.Src)
+			if r.Mod != "none" {
+				b.WriteString("~" + r.Mod)
+			}
+			if r.Part != "full" {
+				b.WriteString("|" + r.Part)
+			}
+		}
+	}
+	return "[" + b.String() + "]"
+}
